@@ -13,12 +13,12 @@ RULE = ("float32 tensors generated from random bit patterns per family (all expo
         "subnormal, near-overflow, mixed sign, constant/zero columns, sparse), rank 1..3, "
         "x {int8,int16,bfloat16,float32} x extract_diagonal; a case is non-trivial when the "
         "tensor has at least one non-zero finite entry; distinct = distinct (family,dtype,shape,"
-        "content hash)")
+        "content hash); in-situ: every quantized leaf of the real optimizer state (pmap + memory reduction, fixed and lr-scheduled intervals) after each step")
 ASSUMPTIONS = [
     "finite inputs only (the statement quantifies over finite tensors)",
     "rounding slack 8*N*2^-24 buckets added to the half-bucket bound for float32 arithmetic",
 ]
-DECIDING = ["roundtrip_checked", "requant_checked", "int_range_checked"]
+DECIDING = ["roundtrip_checked", "requant_checked", "int_range_checked", "insitu_values_checked"]
 MIN_NONTRIVIAL = 50
 TIMEOUT = {"quick": 900, "thorough": 3600}
 
@@ -31,7 +31,8 @@ FAMILIES = ["normal", "allexp", "subnormal", "tinynormal", "huge", "const", "zer
 
 def shards(tier, seed):
   n = 250 if tier == "quick" else 4000
-  out = []
+  out = [{"name": "insitu%d" % i, "env": {"x64": False, "devices": 1}, "dtype": "insitu", "part": i, "n": 3 if tier == "quick" else 30,
+          "budget_s": 600 if tier == "quick" else 3000} for i in range(2)]
   for dt in ["int8", "int16", "bfloat16", "float32"]:
     for half in range(2 if tier == "quick" else 4):
       out.append({"name": "%s/%d" % (dt, half), "env": {"x64": False}, "dtype": dt,
@@ -218,8 +219,119 @@ def check_case(case, dtype_name, rec):
       rec.violation("ftz-subnormal", "re-quantization changed integers for a sub-normal bucket", wit)
 
 
+def check_insitu(c, rec):
+  """Quantized optimizer state produced by the real optimizer (pmap + best_effort_memory_usage_reduction: int16 statistics
+  and preconditioners with extracted diagonal, int8 momenta) is a fixed point of quantize(dequantize(.)), has integers in range,
+  and its extracted diagonal is the diagonal of the value it denotes."""
+  import jax
+  import jax.numpy as jnp
+  from precondition.quantization_utils import QuantizedValue as Q
+  from vmon import dsharness as H
+  rng = np.random.default_rng(c["hseed"])
+  tree = c["tree"]
+  cfg = dict(block_size=8, graft_type=c["graft"], start_preconditioning_step=1, merge_small_dims_block_size=1, beta2=0.9,
+             preconditioning_compute_steps=c["interval"], matrix_epsilon=1e-3, learning_rate=0.1)
+  if c["sched"]:
+    cfg.update(lr_schedule=["halving", 0.5, 2], decay_preconditioning_compute_steps=True, end_preconditioning_compute_steps=20,
+               preconditioning_compute_steps=1)
+  params = {k: np.asarray(rng.standard_normal(tuple(s)), np.float32) for k, s in tree.items()}
+  # harness-side tap (no source edit): every (integers, diagonal, bucket sizes) triple the optimizer obtains from
+  # QuantizedValue.from_float_value with diagonal extraction is recorded; a preconditioner stored in the state must be
+  # bit-identical to the previous one or to (a slice of) a recorded triple - i.e. what is stored is what quantize returned
+  events = []
+  orig = Q.from_float_value.__func__
+
+  def tapped(cls, fvalue, quantized_dtype, extract_diagonal=False):
+    out = orig(cls, fvalue, quantized_dtype, extract_diagonal)
+    if extract_diagonal and not isinstance(out.quantized, list):
+      jax.debug.callback(lambda q_, d_, b_: events.append((np.asarray(q_), np.asarray(d_), np.asarray(b_))),
+                         out.quantized, out.diagonal, out.bucket_size)
+    return out
+  Q.from_float_value = classmethod(tapped)
+  try:
+    run = H.Runner(cfg, params, "pmapq", 1)
+    rec.case(util.key_hash(c), True, sample=c)
+    prev = {}
+    for t in range(c["T"]):
+      g = {k: np.asarray(rng.standard_normal(tuple(s)) * 10 ** rng.uniform(-1, 1), np.float32) for k, s in tree.items()}
+      events.clear()
+      run.step(g)
+      jax.effects_barrier()
+      st = jax.tree.map(lambda x: x[0], run.state)
+      for k in tree:
+        for i, q in enumerate(st.stats[k].preconditioners):
+          trip = (np.asarray(q.quantized), np.asarray(q.diagonal), np.asarray(q.bucket_size))
+          n = trip[0].shape[0]
+          key = (k, i)
+          same_as_before = key in prev and all(np.array_equal(a, b) for a, b in zip(prev[key], trip))
+          produced = any(e[0].shape[0] >= n and np.array_equal(e[0][:n, :n], trip[0]) and np.array_equal(e[1][:n], trip[1]) and
+                         np.array_equal(e[2][:n], trip[2]) for e in events)
+          rec.count("insitu_stored_triples_checked")
+          if t > 0 or produced:
+            rec.count("insitu_triple_matched_quantize_output" if produced else "insitu_triple_unchanged")
+          if t > 0 and not (same_as_before or produced):
+            rec.violation("insitu-stored-is-not-quantize-output", "preconditioner %d of %s at step %d: the stored (integers, diagonal, bucket sizes) are neither the previous ones nor what QuantizedValue.from_float_value returned this step (%d quantisations observed)" % (i, k, t, len(events)), dict(c, leaf=k, step=t))
+            return
+          prev[key] = trip
+      if not _insitu_fields(c, st, tree, t, rec):
+        return
+  finally:
+    Q.from_float_value = classmethod(orig)
+
+
+def _insitu_fields(c, st, tree, t, rec):
+  import jax.numpy as jnp
+  from precondition.quantization_utils import QuantizedValue as Q
+  if True:
+    for k in tree:
+      ps = st.stats[k]
+      items = [("statistics[%d]" % i, q) for i, q in enumerate(ps.statistics)] + [("preconditioners[%d]" % i, q) for i, q in enumerate(ps.preconditioners)]
+      items += [("momentum", ps.momentum), ("diagonal_momentum", ps.diagonal_momentum)]
+      for name, q in items:
+        if not hasattr(q, "quantized") or isinstance(q.quantized, list):
+          continue
+        dt = jnp.dtype(q.quantized_dtype)
+        if dt not in (jnp.dtype(jnp.int8), jnp.dtype(jnp.int16)):
+          continue
+        rec.count("insitu_values_checked")
+        qi = np.asarray(q.quantized)
+        nb = 127 if dt == jnp.dtype(jnp.int8) else 32767
+        wit = dict(c, leaf=k, field=name, step=t)
+        if qi.size and int(np.abs(qi.astype(np.int64)).max()) > nb:
+          rec.violation("insitu-integer-range", "%s of %s at step %d holds an integer outside [-%d,%d]" % (name, k, t, nb, nb), wit)
+          return False
+        val = np.asarray(q.to_float(), np.float64)
+        if not np.all(np.isfinite(val)):
+          continue
+        if q.extract_diagonal and not np.array_equal(np.diag(val).astype(np.float32), np.asarray(q.diagonal)):
+          rec.violation("insitu-diagonal", "%s of %s at step %d: stored diagonal is not the diagonal of the value it denotes" % (name, k, t), wit)
+          return False
+        q2 = Q.from_float_value(jnp.asarray(val, jnp.float32), q.quantized_dtype, q.extract_diagonal)
+        off = val - np.diag(np.diag(val)) if q.extract_diagonal else val
+        colmax = np.max(np.abs(off), axis=0) if off.ndim >= 1 else np.abs(off)
+        if np.any((colmax > 0) & (colmax / nb < MIN_NORMAL * 2)):
+          continue
+        if not np.array_equal(np.asarray(q2.quantized), qi):
+          rec.violation("insitu-not-a-fixed-point", "%s of %s at step %d (%s): quantize(dequantize(state)) changes the stored integers - the stored (integers, diagonal, bucket sizes) are not a consistent quantisation" % (name, k, t, dt), wit)
+          return False
+  return True
+
+
+def gen_insitu(rng):
+  trees = [{"a": [4, 3], "b": [5]}, {"a": [6, 6]}, {"a": [3, 4, 2], "b": [7, 2]}]
+  return {"fn": "insitu", "tree": trees[int(rng.integers(0, len(trees)))], "graft": int(rng.choice([1, 3])), "interval": int(rng.choice([1, 2])),
+          "sched": bool(rng.integers(0, 2)), "T": 6, "hseed": int(rng.integers(0, 2 ** 31))}
+
+
 def run(spec, rec):
   import time
+  if spec["dtype"] == "insitu":
+    rng = util.rng_for(spec["seed"], PROPERTY, spec["name"])
+    for i in range(spec["n"]):
+      if time.time() > rec.deadline:
+        break
+      check_insitu(gen_insitu(rng), rec)
+    return
   dtype_name = spec["dtype"]
   rng = util.rng_for(spec["seed"], PROPERTY, spec["name"])
   for i in range(spec["n"]):
@@ -232,4 +344,7 @@ def run(spec, rec):
 
 def replay(witness, rec):
   w = util.dec(witness)
+  if w.get("fn") == "insitu":
+    check_insitu({k: w[k] for k in ("fn", "tree", "graft", "interval", "sched", "T", "hseed")}, rec)
+    return
   check_case(w, w["dtype"], rec)
